@@ -199,6 +199,25 @@ type worker struct {
 	A *smt.Solver // alternate back end (cvc5, bit-vectors solved as integers), started lazily
 	altTried bool
 	altWins  int
+	tp       *Path // template path holding initialised package state
+}
+
+func (w *worker) newPath(trace []Decision) *Path {
+	return &Path{E: w.e, H: w.h, F: w.F, S: w.S, W: w, trace: trace,
+		globals: map[*ssa.Global]*Obj{}, initDone: map[*ssa.Package]bool{}, initAborted: map[*ssa.Package]string{}, reach: map[string]bool{},
+		pools: map[*Obj][]Value{}, funcs: map[*ssa.Function]bool{}, stubs: map[string]bool{},
+		ufApps: map[string][]*term.T{}, decided: map[*term.T]bool{}, extra: map[string]interface{}{},
+		cloneMemo: map[*Obj]*Obj{}, cloneMapMemo: map[*MapObj]*MapObj{}}
+}
+
+// template returns the worker's template path, on which package initialisers
+// are interpreted once; its objects are never handed to exploring paths.
+func (w *worker) template() *Path {
+	if w.tp == nil {
+		w.tp = w.newPath(nil)
+		w.tp.isTemplate = true
+	}
+	return w.tp
 }
 
 func (w *worker) alt() *smt.Solver {
@@ -293,6 +312,7 @@ func (e *Engine) RunHarness(h *HarnessSpec, fn *ssa.Function, workers int) *Harn
 				npaths++
 				if w.F.Size() > 3_000_000 {
 					w.F = term.NewFactory()
+					w.tp = nil // template terms belong to the old factory
 				}
 				p, pr := w.runPath(fn, tr, res, &rmu)
 				sc.mu.Lock()
@@ -363,10 +383,7 @@ func (e *Engine) RunHarness(h *HarnessSpec, fn *ssa.Function, workers int) *Harn
 
 func (w *worker) runPath(fn *ssa.Function, trace []Decision, res *HarnessResult, rmu *sync.Mutex) (p *Path, pr PathResult) {
 	w.S.Reset()
-	p = &Path{E: w.e, H: w.h, F: w.F, S: w.S, W: w, trace: trace,
-		globals: map[*ssa.Global]*Obj{}, initDone: map[*ssa.Package]bool{}, initAborted: map[*ssa.Package]string{}, reach: map[string]bool{},
-		pools: map[*Obj][]Value{}, funcs: map[*ssa.Function]bool{}, stubs: map[string]bool{},
-		ufApps: map[string][]*term.T{}, decided: map[*term.T]bool{}, extra: map[string]interface{}{}}
+	p = w.newPath(trace)
 	p.extra["res"] = res
 	p.extra["rmu"] = rmu
 	defer func() {
